@@ -241,3 +241,31 @@ impl GraphQLClientCodegenOptions {
         &self.serde_path
     }
 }
+
+#[cfg(graphql_client_verif)]
+impl GraphQLClientCodegenOptions {
+    /// Verification hook: every option as one line of JSON, for comparison with what a caller asked for.
+    pub fn verif_describe(&self) -> String {
+        use quote::ToTokens;
+        serde_json::json!({
+            "mode": format!("{:?}", self.mode),
+            "operation_name": self.operation_name,
+            "struct_name": self.struct_name,
+            "struct_ident": self.struct_ident.as_ref().map(|i| i.to_string()),
+            "variables_derives": self.variables_derives,
+            "response_derives": self.response_derives,
+            "deprecation_strategy": format!("{:?}", self.deprecation_strategy()),
+            "deprecation_strategy_set": self.deprecation_strategy.is_some(),
+            "module_visibility": self.module_visibility().to_token_stream().to_string(),
+            "query_file": self.query_file.as_ref().map(|p| p.display().to_string()),
+            "schema_file": self.schema_file.as_ref().map(|p| p.display().to_string()),
+            "normalization": format!("{:?}", self.normalization),
+            "custom_scalars_module": self.custom_scalars_module.as_ref().map(|p| p.to_token_stream().to_string()),
+            "extern_enums": self.extern_enums,
+            "fragments_other_variant": self.fragments_other_variant,
+            "skip_serializing_none": self.skip_serializing_none,
+            "serde_path": self.serde_path.to_token_stream().to_string(),
+        })
+        .to_string()
+    }
+}
